@@ -261,7 +261,9 @@ func (progBldr *ProgBuilder) Deref() {
 		if err != nil {
 			ctx.execError(err.Error(), "")
 		}
-		ctx.actualPathStack.PushPath(lrefentry.GetSdcpbPath())
+		// Continue from a copy: the steps that follow extend this path,
+		// and it may be the entry's own.
+		ctx.actualPathStack.PushPath(lrefentry.GetSdcpbPath().DeepCopy())
 	}
 
 	progBldr.CodeFn(derefFunc, "deref")
